@@ -223,7 +223,22 @@ def build_e2e(spec):
             for name, gap, prep, execd in tail:
                 t2 = scenario.kernel(ranks[r], name, t + float(F(gap)), float(F(prep)), float(F(execd)), 2)
                 del t2
-    return {f"trace_rank_{rk.r}.json": rk.event_list() for rk in ranks}
+    files = {f"trace_rank_{rk.r}.json": rk.event_list() for rk in ranks}
+    if spec.get("split_jobs"):
+        # one rank's events in TWO job files (two graphs run by the same process): the statistics are per rank and
+        # kernel name, whichever file a slice came from
+        out = {}
+        for fn, evs in files.items():
+            cut = len(evs) // 2
+            while 0 < cut < len(evs) and evs[cut - 1].get("ph") == "B":
+                cut += 1
+            if 0 < cut < len(evs):
+                out[fn.replace(".json", "_jobA.json")] = evs[:cut]
+                out[fn.replace(".json", "_jobB.json")] = evs[cut:]
+            else:
+                out[fn] = evs
+        files = out
+    return files
 
 
 def run_real_e2e(spec):
@@ -530,6 +545,8 @@ def rand_e2e(rng, i):
     if rng.random() < 0.5:
         spec["long"] = [[[rng.choice(names), rat(F(rng.randint(0, 80), 4)), rat(F(rng.randint(4, 40), 4)),
                           rat(F(rng.randint(400, 4000), 4))]] if rng.random() < 0.7 else [] for _ in range(R)]
+    if not spec["allreduce"] and i % 4 == 1:
+        spec["split_jobs"] = True
     if spec["allreduce"]:
         spec["tail"] = [[[rng.choice(names), "3", "5", rat(F(rng.randint(1, 200), 4))]] for _ in range(R)]
     return spec
